@@ -2074,6 +2074,24 @@ func corpus() []*osm.OSM {
 		}
 		out = append(out, x)
 	}
+	// old-style multipolygons whose relation carries MORE than the type tag, but nothing interesting:
+	// an uninteresting key, an empty value, the type tag not first, a second type tag; and one with an
+	// interesting tag besides (not old-style).  Each over its own tagged outer way.
+	{
+		x := &osm.OSM{}
+		for i, t := range []osm.Tags{
+			tagsOf("type", "multipolygon", "source", "survey"), tagsOf("created_by", "JOSM", "type", "multipolygon"),
+			tagsOf("type", "boundary", "name", ""), tagsOf("type", "multipolygon", "type", "true"),
+			tagsOf("type", "multipolygon", "source", "s", "attribution", "a", "note", ""), tagsOf("type", "multipolygon"),
+			tagsOf("type", "multipolygon", "natural", "water"), tagsOf("source", "s", "type", "multipolygon", "name", "lake"),
+		} {
+			b := 10 * i
+			x.Nodes = append(x.Nodes, nodesAt([3]int{b + 1, b + 1, 1}, [3]int{b + 2, b + 6, 1}, [3]int{b + 3, b + 6, 6}, [3]int{b + 4, b + 1, 6})...)
+			x.Ways = append(x.Ways, wayIDs(100+i, tagsOf("building", "yes"), b+1, b+2, b+3, b+4, b+1))
+			x.Relations = append(x.Relations, &osm.Relation{ID: osm.RelationID(i + 1), Tags: t, Members: osm.Members{{Type: osm.TypeWay, Ref: int64(100 + i), Role: "outer"}}})
+		}
+		out = append(out, x)
+	}
 	// ---- known finding polygon-id-outside-packed-range: the Coq witnesses and directed probes ----
 	// polyNegativeID (Examples.d_polyneg): a tagged multipolygon relation with id -1 -> type "", id 2^40-1
 	out = append(out, &osm.OSM{
